@@ -577,7 +577,7 @@ func (env *ExprEnv) deref(ref Term, elem types.Type) TV {
 		return env.typed(v.loadStruct(env.heapNow(), elem, ref), elem)
 	}
 	arr := v.cellArray(elem)
-	return env.typed(fmt.Sprintf("(select %s %s)", v.heapGet(env.heapNow(), arr), ref), elem)
+	return env.typed(v.rd(env.heapNow(), arr, ref), elem)
 }
 
 func (env *ExprEnv) selector(e *ast.SelectorExpr) TV {
@@ -652,7 +652,7 @@ func (env *ExprEnv) fieldOf(x TV, name string) TV {
 		if env.heapNow() == nil {
 			fail("heap access in pure context")
 		}
-		return TV{T: fmt.Sprintf("(select %s %s)", v.heapGet(env.heapNow(), arr), x.T), Ty: gty, Sort: gs}
+		return TV{T: v.rd(env.heapNow(), arr, x.T), Ty: gty, Sort: gs}
 	}
 	isPtr := false
 	st := ty
@@ -798,7 +798,7 @@ func (env *ExprEnv) index(x, i TV) TV {
 		if env.heapNow() == nil {
 			fail("heap access in pure context")
 		}
-		return env.typed(v.sliceElem(v.heapGet(env.heapNow(), arr), v.sortOf(sl.Elem()), x.T, i.T), sl.Elem())
+		return env.typed(v.sliceElemAt(env.heapNow(), arr, v.sortOf(sl.Elem()), x.T, i.T), sl.Elem())
 	}
 	if x.Sort == "Str" {
 		i = env.coerce(i, types.Typ[types.Int], v.idx())
@@ -808,7 +808,7 @@ func (env *ExprEnv) index(x, i TV) TV {
 	if m, ok := x.Ty.Underlying().(*types.Map); ok {
 		i = env.coerce(i, m.Key(), v.sortOf(m.Key()))
 		_, val := v.mapArrays(m)
-		return env.typed(fmt.Sprintf("(select (select %s %s) %s)", v.heapGet(env.heapNow(), val), x.T, i.T), m.Elem())
+		return env.typed(fmt.Sprintf("(select %s %s)", v.rd(env.heapNow(), val, x.T), i.T), m.Elem())
 	}
 	fail("cannot index value of sort %s", x.Sort)
 	return TV{}
@@ -1138,7 +1138,7 @@ func (env *ExprEnv) call(e *ast.CallExpr) TV {
 			return TV{T: fmt.Sprintf("(str_len %s)", x.T), Ty: ity, Sort: v.idx()}
 		}
 		if _, ok := x.Ty.Underlying().(*types.Map); ok && x.Sort == "Int" {
-			return TV{T: fmt.Sprintf("(select %s %s)", v.heapGet(env.heapNow(), v.mapLenArray()), x.T), Ty: ity, Sort: v.idx()}
+			return TV{T: v.rd(env.heapNow(), v.mapLenArray(), x.T), Ty: ity, Sort: v.idx()}
 		}
 		fail("len of %s", x.Sort)
 	case "has":
@@ -1150,7 +1150,7 @@ func (env *ExprEnv) call(e *ast.CallExpr) TV {
 		}
 		k := env.coerce(env.eval(e.Args[1]), mt.Key(), v.sortOf(mt.Key()))
 		dom, _ := v.mapArrays(mt)
-		return TV{T: fmt.Sprintf("(and (not (= %s 0)) (select (select %s %s) %s))", m.T, v.heapGet(env.heapNow(), dom), m.T, k.T), Ty: types.Typ[types.Bool], Sort: "Bool"}
+		return TV{T: fmt.Sprintf("(and (not (= %s 0)) (select %s %s))", m.T, v.rd(env.heapNow(), dom, m.T), k.T), Ty: types.Typ[types.Bool], Sort: "Bool"}
 	case "calls", "lastnonnil":
 		// calls(f): number of invocations of function value f so far (ghost trace)
 		f := env.eval(e.Args[0])
@@ -1160,9 +1160,9 @@ func (env *ExprEnv) call(e *ast.CallExpr) TV {
 		v.regArray("CALLS", fmt.Sprintf("(Array Int %s)", v.idx()))
 		v.regArray("ARGNN", "(Array Int Bool)")
 		if fname == "calls" {
-			return TV{T: fmt.Sprintf("(select %s %s)", v.heapGet(env.heapNow(), "CALLS"), f.T), Ty: types.Typ[types.Int], Sort: v.idx()}
+			return TV{T: v.rd(env.heapNow(), "CALLS", f.T), Ty: types.Typ[types.Int], Sort: v.idx()}
 		}
-		return TV{T: fmt.Sprintf("(select %s %s)", v.heapGet(env.heapNow(), "ARGNN"), f.T), Ty: types.Typ[types.Bool], Sort: "Bool"}
+		return TV{T: v.rd(env.heapNow(), "ARGNN", f.T), Ty: types.Typ[types.Bool], Sort: "Bool"}
 	case "cast":
 		// cast(x, "T"): reinterpret a reference (interface value) as type T. Trusted:
 		// used for views of interfaces with a single production implementation.
@@ -1191,7 +1191,7 @@ func (env *ExprEnv) call(e *ast.CallExpr) TV {
 		if env.heapNow() == nil {
 			fail("heap access in pure context")
 		}
-		return TV{T: fmt.Sprintf("(select %s (sl_arr %s))", v.heapGet(env.heapNow(), arr), x.T), Ty: types.NewMap(types.Typ[types.Int], sl.Elem()), Sort: fmt.Sprintf("(Array %s %s)", v.idx(), v.sortOf(sl.Elem()))}
+		return TV{T: v.rd(env.heapNow(), arr, v.arrOf(x.T)), Ty: types.NewMap(types.Typ[types.Int], sl.Elem()), Sort: fmt.Sprintf("(Array %s %s)", v.idx(), v.sortOf(sl.Elem()))}
 	case "offset":
 		x := env.eval(e.Args[0])
 		if x.Sort != "Slice" {
@@ -1219,7 +1219,7 @@ func (env *ExprEnv) call(e *ast.CallExpr) TV {
 		}
 		k := env.coerce(env.eval(e.Args[1]), mt.Key(), v.sortOf(mt.Key()))
 		rv := v.rangeVisitedArray(mt)
-		return TV{T: fmt.Sprintf("(select (select %s %s) %s)", v.heapGet(env.heapNow(), rv), m.T, k.T), Ty: types.Typ[types.Bool], Sort: "Bool"}
+		return TV{T: fmt.Sprintf("(select %s %s)", v.rd(env.heapNow(), rv, m.T), k.T), Ty: types.Typ[types.Bool], Sort: "Bool"}
 	case "fresh":
 		x := env.eval(e.Args[0])
 		if x.Sort == "Slice" {
